@@ -792,7 +792,7 @@ def _fact(p, op):
 # ---------------------------------------------------------------------------
 # byte helpers
 # ---------------------------------------------------------------------------
-def byte_helpers(chk, repo, w):
+def byte_helpers(chk, repo, w, rule="C11.R3"):
     m = repo.module(G2P)
     for nm in ("compress_G1", "compress_G2", "decompress_G1", "decompress_G2"):
         r = repo.resolve_binding(m, nm)
@@ -811,20 +811,20 @@ def byte_helpers(chk, repo, w):
     f = repo.func(f"{G2P}.G1_to_pubkey")
     r = it.call_func(f, [pt], {})
     want = Term("i2osp", (Term("compress_G1", (pt,), "int"), 48), "bytes")
-    chk.ob("C11.R3", f.qualname, "I2OSP(compress_G1(pt), 48)  (word < 2^384, so the conversion cannot overflow)", r is want, f"got {show(r)[:120]}", f.where)
+    chk.ob(rule, f.qualname, "I2OSP(compress_G1(pt), 48)  (word < 2^384, so the conversion cannot overflow)", r is want, f"got {show(r)[:120]}", f.where)
     f = repo.func(f"{G2P}.pubkey_to_G1")
     r = it.call_func(f, [pk], {})
     want = Term("decompress_G1", (Term("os2ip", (pk,), "int"),), "point")
-    chk.ob("C11.R3", f.qualname, "decompress_G1(OS2IP(pubkey))", r is want, f"got {show(r)[:120]}", f.where)
+    chk.ob(rule, f.qualname, "decompress_G1(OS2IP(pubkey))", r is want, f"got {show(r)[:120]}", f.where)
     f = repo.func(f"{G2P}.G2_to_signature")
     r = it.call_func(f, [pt], {})
     cz = Term("compress_G2", (pt,), "any")
     want = t_concat([Term("i2osp", (Term("item", (cz, 0), "int"), 48), "bytes"), Term("i2osp", (Term("item", (cz, 1), "int"), 48), "bytes")])
-    chk.ob("C11.R3", f.qualname, "I2OSP(z1, 48) ‖ I2OSP(z2, 48)", r is want, f"got {show(r)[:160]}", f.where)
+    chk.ob(rule, f.qualname, "I2OSP(z1, 48) ‖ I2OSP(z2, 48)", r is want, f"got {show(r)[:160]}", f.where)
     f = repo.func(f"{G2P}.signature_to_G2")
     r = it.call_func(f, [sig], {})
     want = Term("decompress_G2", ((Term("os2ip", (t_slice(sig, 0, 48),), "int"), Term("os2ip", (t_slice(sig, 48, None),), "int")),), "point")
-    chk.ob("C11.R3", f.qualname, "decompress_G2((OS2IP(sig[:48]), OS2IP(sig[48:])))", r is want, f"got {show(r)[:200]}", f.where)
+    chk.ob(rule, f.qualname, "decompress_G2((OS2IP(sig[:48]), OS2IP(sig[48:])))", r is want, f"got {show(r)[:200]}", f.where)
 
 
 MANIFEST = {
